@@ -162,6 +162,8 @@ def boundary_inputs():
         out.append(("paren-depth-%d" % d, "x = " + "(" * d + "1" + ")" * d + "\n"))
         out.append(("list-depth-%d" % d, "const x = " + "[" * d + "1" + "]" * d + "\n"))
         out.append(("block-depth-%d" % d, "if true {" * min(d, 450) + "}" * min(d, 450) + "\n"))
+    out += [("unclosed-block-comment-then-list-depth-1990", "### x\nconst x = " + "[" * 1990 + "1" + "]" * 1990 + "\n"),
+            ("unclosed-block-comment-then-unclosed-lists", "### x\nconst x = " + "[" * 4000 + "\n")]
     out += [("huge-int", "x = " + "9" * 400 + "\n"), ("huge-float", "x = " + "9" * 400 + "." + "9" * 400 + "\n"), ("huge-byte", "x = 0b" + "1" * 300 + "\n"),
             ("huge-bigint", "x = B" + "9" * 300 + "\n"), ("hex-overflow", "x = 0x" + "F" * 64 + "\n"), ("unterminated-string", "x = \"abc\n"),
             ("unterminated-block-comment", "### never closed\nx = 1\n"), ("lonely-backslash", "x = \"a\\\"\n"), ("bad-escape", "x = \"a\\qb\"\n"),
@@ -178,6 +180,37 @@ def boundary_inputs():
             ("fn-dup-param", "f = fn(a: int, a: int) { }\n"), ("fn-no-type-param", "f = fn(a) { }\n"), ("fn-call-too-many", "f = fn() { }\nf(1, 2, 3)\n"),
             ("assert-nonbool", "assert 5\n"), ("print-void", "f = fn() { }\nprint f()\n"), ("unpack-mismatch", "[a, b] = [1]\n"), ("unpack-nonlist", "[a, b] = 5\n"),
             ("list-type-mixed-open", "x: [int, str...] = [1, \"a\", \"b\"]\n"), ("optional-fn-type", "x: (fn() -> int)? = nil\n"), ("deep-optional", "x: int???? = nil\n")]
+    return out
+
+
+# ---- alternating openers: a parser without memoization parses the text behind an opener once per alternative that can start
+# with it; two DIFFERENT constructs that contain each other (a statement keyword in front of a list, a list that holds a function
+# literal, a method call that takes one) multiply those repeats at every level - also in programs that are VALID
+OPENERS = [("return [", "]"), ("print [", "]"), ("assert [", "]"), ("x = [", "]"), ("[", "]"), ("(", ")"), ("idf(", ")"), ("xs.map(", ")"), ("k.add(", ")"),
+           ("fn() -> int {", "}"), ("fn(v: int) -> int {", "}"), ("if true {", "}"), ("while v < 0 {", "}"), ("from 0 to 2 {", "}"), ("map[str, int] {\"k\": ", "}"),
+           ("xs[", "]"), ("k.n = [", "]"), ("typeof [", "]"), ("class A {", "}"), ("fn m(self) {", "}")]
+
+def opener_pair_inputs():
+    pre = ("class K {\n\tn: int\n\tconstructor(self) {\n\t\tself.n = 1\n\t}\n\tfn add(self, d: int) -> int {\n\t\treturn self.n + d\n\t}\n}\n"
+           "v = 1\nk = K()\nxs: [int...] = [1, 2]\nidf = fn(a: int) -> int {\n\treturn a\n}\n")
+    out = []
+    for (a, ca) in OPENERS:
+        for (b, cb) in OPENERS:
+            if a == b:
+                continue
+            for n in (12, 40):
+                unit = len(a) + len(b) + len(ca) + len(cb) + 4
+                reps = min(n, (4000 - len(pre)) // unit)
+                opened = "".join(a + "\n" + b + "\n" for _ in range(reps))
+                out.append(("openers-unclosed:%s|%s:%d" % (a, b, n), pre + opened))
+                out.append(("openers-closed:%s|%s:%d" % (a, b, n), pre + opened + "1\n" + "".join(cb + "\n" + ca + "\n" for _ in range(reps))))
+    # the same for VALID programs: statements that are method calls taking a function literal, nested in each other
+    for depth in (8, 14, 20, 30):
+        body = "\t" * depth + "print v%d\n" % depth
+        for i in range(depth, 0, -1):
+            ind = "\t" * (i - 1)
+            body = "%sxs.map(fn(v%d: int) -> int {\n%s%s\treturn v%d\n%s})\n" % (ind, i, body, ind, i, ind)
+        out.append(("nested-callback-statements:%d" % depth, "xs: [int...] = [1]\n" + body))
     return out
 
 
@@ -337,6 +370,7 @@ def enumerated(tier, seed):
     cases += [{"family": n, "text": t} for n, t in matrix_inputs()]
     cases += [{"family": n, "text": t} for n, t in composition_inputs()]
     cases += [{"family": n, "text": t} for n, t in nesting_inputs()]
+    cases += [{"family": n, "text": t} for n, t in opener_pair_inputs()]
     return cases
 
 
